@@ -1,5 +1,6 @@
 """C07 Degree claims are sound."""
 import itertools
+import re
 
 import facts
 from astlib import find_fn, find_impl, method_calls, render, site, strip, walk, last, calls
@@ -229,6 +230,8 @@ def rule_env(ctx):
     sfn = find_fn(SI, "propagate_degrees", "Statement")
     if sfn is None:
         return ctx.missing(R, "Statement::propagate_degrees")
+    import alpha
+    sfn, _m = alpha.canon_fields(sfn, [("names", "Declaration", "names"), ("var_type", "Declaration", "var_type"), ("var", "Substitution", "var"), ("rhe", "Substitution", "rhe")], [("env", "param", 0)])
     for s in method_calls(sfn["body"], "set_degree"):
         recv = render(strip(s["recv"]))
         if "degree_knowledge_mut" in recv:
@@ -251,9 +254,11 @@ def rule_env(ctx):
         elif any("Substitution" in render(a[2]) for a in arms):
             var = render(strip(s["args"][0]))
             local_guard = any(c[0] == "if" and c[2] and render(c[1]).replace(" ", "") == "env.is_local(%s)" % var for c in conds)
-            from_rhs = any(c[0] == "iflet" and c[3] and render(c[2]).replace(" ", "") == "rhe.degree()" for c in conds)
+            fr_ = [render(c[1]).replace(" ", "") for c in conds if c[0] == "iflet" and c[3] and render(c[2]).replace(" ", "") == "rhe.degree()"]
+            from_rhs = bool(fr_)
+            rb_ = re.fullmatch(r"Some\((\w+)\)", fr_[0]).group(1) if fr_ and re.fullmatch(r"Some\((\w+)\)", fr_[0]) else "range"
             ctx.check(R, "Statement::propagate_degrees/Substitution/only-locals-take-the-rhs-degree", local_guard, "the assigned name's degree is replaced by the right-hand side's only for local variables (signals and components keep their Linear seed whatever is assigned to them); guards: %s" % arm_txt, site(SI, s))
-            ctx.check(R, "Statement::propagate_degrees/Substitution/publishes-rhs-degree", from_rhs and render(strip(s["args"][1])) == "range", "set_degree(%s) in %s" % (render(s["args"]), arm_txt), site(SI, s))
+            ctx.check(R, "Statement::propagate_degrees/Substitution/publishes-rhs-degree", from_rhs and render(strip(s["args"][1])) == rb_, "set_degree(%s) in %s" % (render(s["args"]), arm_txt), site(SI, s))
         else:
             ctx.bad(R, "Statement::propagate_degrees/unexpected-seed", "set_degree(%s) in %s" % (render(s["args"]), arm_txt), site(SI, s))
     # who may call DegreeEnvironment::set_degree (syntax level: receiver is an env, not degree_knowledge_mut())
